@@ -177,6 +177,12 @@ class Spec:
             return bool(regs[29] & 1) == bool(v), "EN_DYN_ACK"
         if n == "power=":
             return bool(regs[0] & 2) == bool(v), "PWR_UP"
+        if n == "open_tx_pipe" and 1 <= len(v) <= 5:
+            ok = snap["tx_addr"][:len(v)] == bytes(v)
+            if regs[1] & 1:     # auto-ack on pipe 0: "RX pipe 0 is appropriated with the TX address", open in TX mode
+                ok = ok and snap["p0"] == snap["tx_addr"] and bool(regs[0] & 1 or regs[2] & 1)
+            return ok, "TX_ADDR starting with %s%s" % (bytes(v).hex(), ", RX_ADDR_P0 == TX_ADDR and pipe 0 open for the ACK"
+                                                        if regs[1] & 1 else "")
         if n == "interrupt_config":
             return regs[0] & 0x70 == ((not a[0]) << 6 | (not a[1]) << 5 | (not a[2]) << 4), "IRQ mask bits"
         return True, ""
